@@ -88,7 +88,8 @@ def gen_hist(rng, quick, sparse):
                 st["badcols"] = rng.choice([-1, 1])
             st["inplace"] = (not sparse) and rng.random() < 0.3      # transform(K, copy=False)
             steps.append(st)
-    return dict(kind="skhist" if sparse else "knhist", init=init, steps=steps, mag=mag)
+    return dict(kind="skhist" if sparse else "knhist", init=init, steps=steps, mag=mag,
+                flagpres=rng.choice(["bool", "bool", "np_bool", "int"]))
 
 
 # ------------------------------------------------------------------------------ implementation
@@ -154,9 +155,11 @@ def make_obj(case, flags=None):
     from skmatter.preprocessing import KernelNormalizer, SparseKernelCenterer
     P = _P()
     f = flags or case["init"]
+    fp = case.get("flagpres", "bool")
     if case["kind"] == "skhist":
-        return SparseKernelCenterer(with_center=f["c"], with_trace=f["t"], **P.rc_kw(f.get("rc")))
-    return KernelNormalizer(with_center=f["c"], with_trace=f["t"])
+        return SparseKernelCenterer(with_center=P.pflag(f["c"], fp), with_trace=P.pflag(f["t"], fp),
+                                    **P.rc_kw(f.get("rc")))
+    return KernelNormalizer(with_center=P.pflag(f["c"], fp), with_trace=P.pflag(f["t"], fp))
 
 
 def set_flags(obj, st, sparse):
@@ -221,6 +224,11 @@ def run_impl(case):
             except Exception as e:  # noqa
                 r["raised"] = type(e).__name__
                 r["raised_msg"] = str(e)[:200]
+            # calls without copy=False must leave the caller's arrays as they were — also when they raise
+            if not st.get("inplace"):
+                for k, v in a.items():
+                    if v is not None and not P._same(v, r[k]):
+                        r["mutated"] = k
             # ... and are overwritten in place once the call has returned
             P.scribble(*[v for v in a.values() if v is not None and v.base is None])
             P.scribble(*[v for v in a.values() if v is not None and v.base is not None])
@@ -282,6 +290,9 @@ def oracle(case, rec):
             last = (st, r)
             if "raised" in r:
                 return "step %d: %s raised %s on valid input" % (i, st["op"], r["raised"])
+        if r.get("mutated"):
+            return "step %d: %s changed the caller's array %s%s" % (
+                i, st["op"], r["mutated"], " (and raised %s)" % r["raised"] if "raised" in r else "")
         if st["op"] in ("fit", "fit_transform") and st["bad"] is not None and "raised" not in r:
             return "step %d: %s accepted invalid input (%s)" % (i, st["op"], st["bad"])
         if "X" not in r or last is None:
